@@ -122,3 +122,18 @@ class VerifyEnable:
 
 
 FAMILIES = {f.name: f for f in (Predicates(), AutoDetect(), VerifyEnable())}
+
+
+def _load_plugins():
+    """families defined in vlib/fam_*.py (each module exports FAMILIES: list of family objects)"""
+    import glob
+    import importlib
+    import os
+    here = os.path.dirname(os.path.abspath(__file__))
+    for f in sorted(glob.glob(os.path.join(here, "fam_*.py"))):
+        mod = importlib.import_module("vlib." + os.path.basename(f)[:-3])
+        for fam in getattr(mod, "FAMILIES", []):
+            FAMILIES[fam.name] = fam
+
+
+_load_plugins()
